@@ -8,6 +8,7 @@ import (
 	"github.com/gr33nbl00d/caddy-revocation-validator/core"
 	"github.com/gr33nbl00d/caddy-revocation-validator/core/hashing"
 	"github.com/gr33nbl00d/caddy-revocation-validator/core/utils"
+	"github.com/gr33nbl00d/caddy-revocation-validator/core/verifhook"
 	"github.com/gr33nbl00d/caddy-revocation-validator/crl/crlreader"
 	"github.com/syndtr/goleveldb/leveldb"
 	"go.uber.org/zap"
@@ -177,25 +178,30 @@ func (S *LevelDbStore) Update(store CRLStore) error {
 	if err != nil {
 		return err
 	}
+	verifhook.Hit("leveldb.update:closed")
 	levelDBPath := filepath.Join(S.BasePath, S.Identifier)
 	levelDBPathTemp, err := S.renameWithRetriesToTempDir(S.LevelDBPath)
 	if err != nil {
 		return err
 	}
+	verifhook.Hit("leveldb.update:aside")
 	err = S.renameWithRetries(levelDbNew.LevelDBPath, levelDBPath)
 	if err != nil {
 		return err
 	}
+	verifhook.Hit("leveldb.update:in")
 
 	err = S.removeWithRetries(levelDBPathTemp)
 	if err != nil {
 		S.Logger.Warn("failed to delete temporary path, will be deleted on next restart", zap.String("path", levelDBPathTemp))
 	}
+	verifhook.Hit("leveldb.update:deleted")
 	db, err := openDbWithRetries(levelDBPath, S.Logger)
 	if err != nil {
 		return err
 	}
 	S.Db = db
+	verifhook.Hit("leveldb.update:reopened")
 	return nil
 }
 
